@@ -102,12 +102,29 @@ CompareMsg(where, m, spec, skip, obs, raw, ga, la) ==
                             expected |-> IF s \in DOMAIN spec THEN spec[s] ELSE Absent,
                             observed |-> IF s \in DOMAIN of THEN of[s] ELSE Absent])
 
+\* does an observed message agree with the expected one in every comparable field?
+MsgAgrees(m, spec, skip, obs) ==
+    LET of == ListToFun(obs.f)
+        keys == (DOMAIN spec \cup DOMAIN of) \ skip
+    IN  /\ obs.m = m
+        /\ \A s \in keys : IF s \in DOMAIN spec /\ s \in DOMAIN of
+                             THEN (IF dec.enc THEN EncFieldEq(m, s, spec[s], of[s]) ELSE FieldEq(spec[s], of[s]))
+                             ELSE IF s \in DOMAIN spec THEN spec[s] = WallOnly(Zero4) \/ (dec.enc /\ EncAbsentOk(m, s, spec[s]))
+                             ELSE dec.enc /\ EncMissingOk(m, s)
+
 CompareOut(o, ga, la) ==
     CASE o.kind = "msg" ->
            IF ~HasFile THEN TRUE      \* no file returned: file-level comparison reports it
            ELSE IF o.slot \notin DOMAIN Obs.slots \/ o.idx > Len(Obs.slots[o.slot])
            THEN Note(Where @@ [what |-> "missing message", slot |-> o.slot, idx |-> o.idx, m |-> o.m])
-           ELSE Count(3) /\ CompareMsg(Where @@ [slot |-> o.slot, idx |-> o.idx], o.m, o.msg, o.skip, Obs.slots[o.slot][o.idx], o.raw, ga, la)
+           ELSE /\ Count(3)
+                /\ CompareMsg(Where @@ [slot |-> o.slot, idx |-> o.idx], o.m, o.msg, o.skip, Obs.slots[o.slot][o.idx], o.raw, ga, la)
+                \* the message is there, but at another position of its slot: stream order is not kept
+                /\ IF ~MsgAgrees(o.m, o.msg, o.skip, Obs.slots[o.slot][o.idx])
+                      /\ \E j \in DOMAIN Obs.slots[o.slot] : j # o.idx /\ MsgAgrees(o.m, o.msg, o.skip, Obs.slots[o.slot][j])
+                   THEN Note(Where @@ [what |-> "stream order", slot |-> o.slot, idx |-> o.idx, m |-> o.m,
+                                       foundat |-> CHOOSE j \in DOMAIN Obs.slots[o.slot] : j # o.idx /\ MsgAgrees(o.m, o.msg, o.skip, Obs.slots[o.slot][j])])
+                   ELSE TRUE
       [] OTHER -> TRUE
 
 TInit == /\ ti = 1 /\ fi = 1
